@@ -109,7 +109,7 @@ def reducible(ctx, fx):
             fn = ctx.fn(f)
             al = fn.aliases()
             det = []
-            loops = [b for b in fn.blocks.values() if (b.get("term") or {}).get("cls") == "ForStmt"]
+            loops = [b for b in fn.blocks.values() if (b.get("term") or {}).get("cls") in ("ForStmt", "WhileStmt")]
             if len(loops) != 1 or S(lit(loops[0]["term"]["cond"])[0]) != "(i < this->data_.size())":
                 det.append("loop is not over [.., data_.size())")
             i0 = [e for _, e in fn.events(lambda e: e.get("k") == "decl" and e.get("n") == "i")]
